@@ -103,6 +103,12 @@ def explore(ctx, factor, bs):
             if clash is not None:
                 form = clash
                 ctx.count("name_clash")
+        if rng.random() < 0.12:
+            # clashes among generated meta children (several audit rows at any depth) and inside bodyless groups
+            mc = formcommon.inject_meta_clash(rng, form)
+            if mc is not None:
+                form = mc
+                ctx.count("meta_clash")
         form_case(ctx, form)
 
 
